@@ -14,7 +14,7 @@ THEOREMS = [
     "LoadTree.C15_unreachable", "LoadTree.C15_uninstrumented", "LoadTree.C15_same_as_fresh",
     "LoadTree.C15_ids_not_reused", "LoadTree.C15_no_discard_false",
     "LoadTree.C15_no_key_left", "LoadTree.C15_nothing_registered", "LoadTree.C15_fail_iff", "LoadTree.C15_history",
-    "LoadTree.C15_history_clean", "LoadTree.C15_same_as_fresh_history",
+    "LoadTree.C15_history_clean", "LoadTree.C15_same_as_fresh_history", "LoadTree.C15_pinned_false",
 ]
 
 
